@@ -220,4 +220,23 @@ def aObs (sh : AShared) : AObs :=
 def holdsA (o : AObs) : Bool :=
   o.open_ == 0 && o.stc + o.lostS == o.satt && o.ttc + o.lostT == o.tatt
 
+/-! ### Client traffic report: whatever the interleaving of periodic reports with the final report
+on Close, every byte accumulated is either reported by exactly one successful `TrackTraffic` call
+or still pending (never negative); with no failing call and at least one report nothing is left. -/
+
+structure PObs where
+  repS : Int
+  repR : Int
+  pendS : Int
+  pendR : Int
+  calls : Nat
+  leak : Nat
+  deriving DecidableEq, Repr
+
+def pObs (c : Cfg PShared PLocal) : PObs := ⟨c.sh.repS, c.sh.repR, c.sh.pendS, c.sh.pendR, c.sh.calls, 0⟩
+
+def holdsP (a b : Nat) (fails : List Bool) (o : PObs) : Bool :=
+  o.repS + o.pendS == a && o.repR + o.pendR == b && decide (0 ≤ o.pendS) && decide (0 ≤ o.pendR) &&
+  (fails.isEmpty || fails.any id || (o.pendS == 0 && o.pendR == 0)) && o.leak == 0
+
 end Tunnox.C16
